@@ -20,31 +20,43 @@ def obligations(c, facts, b, prefix):
     entry = an.role("prec_entry")
     lexk = an.role("lex")
     rule = prefix + ".api"
-    # ---- G1
-    t = rx.tail_expr(pubf.body)
+    # ---- G1: parse() evaluated (vlib/probe.py) with the inner parser and the error dispatcher replaced by unknowns: on
+    # success the inner result must come back as it is; on failure the error must be what the dispatcher makes of the inner
+    # error and of the very input the inner parser worked on; the inner parser must have been given the argument itself
+    from . import probe as P
+
     okapi, det = None, "shape of %s not recognised" % pubk
-    if t is not None:
-        base, chain = rx.method_chain(t)
-        ms = [m_ for m_, _, _ in chain]
-        callee_ok = base["k"] == "call" and base["f"]["k"] == "path" and base["f"]["segs"][-1] == innerk.split("::")[-1]
-        okapi = callee_ok and ms in (["or_else"], ["map_err"])
-        det = "%s returns %s(..).%s: the tree and the options produced by the inner parser reach the caller unchanged: %s" % (pubk, innerk.split("::")[-1], ".".join(ms), okapi)
-        pname = pubf.params[0][0] if pubf.params else None
-        # statements before the tail may only view the argument as &str: `let mut x: &str = input.as_ref();`
-        pre = []
-        for st in pubf.body["stmts"][:-1]:
-            init = st.get("init") if st["k"] == "let" else None
-            i0 = rx.peel(init) if init is not None else None
-            plain = i0 is not None and i0.get("k") == "mcall" and i0["m"] in ("as_ref", "as_str", "borrow") and not i0["args"] and rx.is_var(i0["recv"], pname)
-            if not plain:
-                pre.append(src(st)[:70])
-        if pre:
-            okapi, det = False, det + "; statements that are not a plain `&str` view of the argument: %s" % pre
-        if callee_ok and base["args"]:
-            a0 = rx.peel(base["args"][0])
-            views = {rx.pat_bindings(st["pat"])[0] for st in pubf.body["stmts"][:-1] if st["k"] == "let" and rx.pat_bindings(st["pat"])}
-            if not (a0.get("k") == "path" and len(a0["segs"]) == 1 and a0["segs"][0] in views | {pname}):
-                okapi, det = False, det + "; the inner parser is applied to `%s`, not to the argument" % src(a0)[:50]
+    try:
+        dispk = an.role("dispatch")
+    except Exception:
+        dispk = None
+    outcomes = {}
+    try:
+        for case in ("ok", "err"):
+            pr = P.Probe(facts, None, pubf.module)
+            arg = P.Opq("argument")
+            R, E = P.Opq("inner result"), P.Opq("inner error")
+            seen = {}
+            pr.intercept[innerk] = lambda a, case=case, seen=seen: (seen.__setitem__("inner", list(a)), ("ok", R) if case == "ok" else ("err", E))[1]
+            if dispk:
+                pr.intercept[dispk] = lambda a, seen=seen: (seen.__setitem__("dispatch", list(a)), P.Opq("dispatched", ("call", dispk, list(a))))[1]
+            out = pr.invoke(pubf, None, [arg] + [P.Opq("extra") for _ in pubf.params[1:]])
+            outcomes[case] = (out, seen, arg, R, E)
+        out, seen, arg, R, E = outcomes["ok"]
+        ok1 = isinstance(out, tuple) and out[0] == "ok" and out[1] is R and seen.get("inner") == [arg] and seen["inner"][0] is arg
+        out, seen, arg, R, E = outcomes["err"]
+
+        def rooted(v, root):
+            while isinstance(v, P.Opq) and v is not root and v.expr and v.expr[0] == "mcall" and v.expr[1] in ("into_inner", "unwrap", "expect", "unwrap_or_default"):
+                v = v.expr[2]
+            return v is root
+
+        d = out[1] if isinstance(out, tuple) and out[0] == "err" else None
+        ok2 = isinstance(d, P.Opq) and d.expr and d.expr[0] == "call" and d.expr[1] == dispk and len(seen.get("dispatch", [])) == 2 and rooted(seen["dispatch"][0], E) and seen["dispatch"][1] is arg and seen.get("inner") and seen["inner"][0] is arg
+        okapi = bool(ok1 and ok2)
+        det = "%s evaluated with %s and %s replaced by unknowns: on success the inner result is returned as it is: %s; on failure the error is %s(inner error, the input the inner parser worked on): %s" % (pubk, innerk.split("::")[-1], (dispk or "?").split("::")[-1], bool(ok1), (dispk or "?").split("::")[-1], bool(ok2))
+    except (P.NoEval, P.Panic) as ex:
+        okapi, det = None, "%s could not be evaluated: %s" % (pubk, ex)
     c.ob(rule, pubk, "parse() hands its input over and returns the inner result untouched", okapi, det, witness="any input the added step rewrites" if okapi is False else None)
     # ---- G2
     from .rules import c06
